@@ -98,6 +98,8 @@ var styleRePool = []rePoolEntry{
 	// deny-list style patterns (negated classes): everything but a colon / a parenthesis
 	{regexp.MustCompile(`^[^:]*$`), []string{"red", "10px"}, []string{"a:b"}},
 	{regexp.MustCompile(`^[^(;]*$`), []string{"red", "a b"}, []string{"f(x)"}},
+	// white space of any kind between two words
+	{regexp.MustCompile(`^[a-z]+\s[a-z]+$`), []string{"alpha beta", "a b"}, []string{"ab", "a  b"}},
 }
 
 var styleEnumPool = [][]string{{"left", "right", "center"}, {"red", "re d", "BLUE"}, {"10px"}, {"none", "underline"}, {"solid", "block", "Dashed"}}
